@@ -43,6 +43,23 @@ def judge_tree(op, impl, model, spec):
     return "ok" if mp is not None and disp.match(mp, ib) else "corr"
 
 
+def at_model_op(op):
+    w = op.split(" ")
+    return "display " + w[2][2 * int(w[1]):]
+
+
+def judge_at(op, impl, model, spec):
+    if " | " not in impl:
+        return "violation"
+    a, b = impl.split(" | ")
+    if a != b:
+        return "violation"
+    ib, mp = disp.canon_impl(a), disp.model_pieces(model)
+    if ib is None:
+        return "violation"
+    return "ok" if mp is not None and disp.match(mp, ib) else "corr"
+
+
 # deep nests: (unit prefix, unit suffix, opening text, closing text); hex = prefix*d + 00 + suffix*d
 DEEP_KINDS = {"arr": ("81", "", "[", "]"), "iarr": ("9f", "ff", "[_ ", "]"), "tag": ("c1", "", "1(", ")"), "map": ("a100", "", "{0: ", "}"),
               "imap": ("bf00", "ff", "{_ 0: ", "}"), "arr2": ("8201", "", "[1, ", "]"), "mix": ("81c19f", "ff", "[1([_ ", "])]")}
@@ -137,14 +154,9 @@ def streams(rng, tier):
         pre = rng.choice([b"\x18\x2a", b"\x00", b"\x82\x01\x02", b"\xff\xff\x1c", b"\x9f", gen.rand_bytes(rng, rng.randint(1, 5))])
         pops.append(f"displayat {len(pre)} {(pre + e).hex()}")
         pops.append(f"displayat 0 {e.hex()}")
-    def judge_at(op, impl, model, spec):
-        if " | " not in impl:
-            return "violation"
-        a, b = impl.split(" | ")
-        return "ok" if a == b else "violation"
-    s4 = Stream("display-from-position", "hcore", pops, model_ops=["nop"] * len(pops), judge=judge_at,
-                rule="displayat: Display of Decoder::tokens() taken at position p of a buffer == display(&buffer[p..]) for well-formed items "
-                     "behind arbitrary leading bytes (both sides are the same build; the right side is what wellformed-notation judges)",
+    s4 = Stream("display-from-position", "hcore", pops, model_ops=[at_model_op(o) for o in pops], judge=judge_at,
+                rule="displayat: Display of Decoder::tokens() taken at position p of a buffer == display(&buffer[p..]) == the model's display of "
+                     "that suffix, for well-formed items behind arbitrary leading bytes",
                 nontrivial=lambda op, impl: " | " in impl)
     s4.shrinkable = False
     # many items of one kind in ONE input (whatever the renderer counts per tag / container / string must not add up)
@@ -169,6 +181,6 @@ def replay_streams(rp):
         d = int(full.split("#D=")[1].split(":")[1])
         return [Stream("replay", "hcore", [full], model_ops=[" ".join(full.split(" ")[:2]) if d <= DEEP_MODEL_MAX else "display 00"], judge=judge_deep)]
     if full.startswith("displayat"):
-        return [Stream("replay", "hcore", [full], model_ops=["nop"], judge=lambda o, i, m, s: "ok" if " | " in i and i.split(" | ")[0] == i.split(" | ")[1] else "violation")]
+        return [Stream("replay", "hcore", [full], model_ops=[at_model_op(full)], judge=judge_at)]
     op = " ".join(full.split(" ")[:2])
     return [Stream("replay", "hcore", [op], judge=judge_total)]
